@@ -84,6 +84,44 @@ def gen_pair(rng, comments=False):
                         crng.choice(['c1', "it's", 'ü'])
     new = old
     kinds = []
+    if rng.random() < 0.06:
+        # the only difference: one multi-column index / constraint /
+        # together entry lists the same columns in another order
+        cands = []
+        for a, mods in old.items():
+            for m, ms in mods.items():
+                cols = [fn for fn, fd in ms['fields']
+                        if fd['kind'] not in ('ManyToMany', 'Text')]
+                if len(cols) >= 2:
+                    cands.append((a, m, cols))
+        if cands:
+            a, m, cols = rng.choice(cands)
+            pair = rng.sample(cols, 2)
+            prop = rng.choice(['unique_together', 'index_together',
+                               'indexes', 'constraints'])
+            meta = old[a][m].setdefault('meta', {})
+            cur = meta.setdefault(prop, [])
+            if prop.endswith('together'):
+                if sorted(pair) in [sorted(x) for x in cur]:
+                    cur[:] = [x for x in cur if sorted(x) != sorted(pair)]
+                cur.append(pair)
+            elif prop == 'indexes':
+                cur.append({'fields': pair, 'name': 'ix_reorder'})
+            else:
+                cur.append({'type': 'unique', 'name': 'uq_reorder',
+                            'fields': pair})
+            new = S.clone(old)
+            ent = new[a][m]['meta'][prop][-1]
+            if isinstance(ent, list):
+                ent.reverse()
+            else:
+                ent['fields'] = ent['fields'][::-1]
+            try:
+                seqcase._validate_spec(old)
+                seqcase._validate_spec(new)
+                return old, new, ['change_meta:reorder_' + prop]
+            except Exception:
+                new = old
     n = rng.choice([1, 1, 2, 3, 4, 6])
     tries = 0
     while len(kinds) < n and tries < 40:
@@ -190,6 +228,21 @@ def eq_vs_diff(a, b):
     return bool(eq), bool(e1), bool(e2)
 
 
+def _first_difference(a, b, path=''):
+    if type(a) is not type(b):
+        return '%s: %r vs %r' % (path, a, b)
+    if isinstance(a, dict):
+        for k in sorted(set(a) | set(b), key=str):
+            if a.get(k) != b.get(k):
+                return _first_difference(a.get(k), b.get(k),
+                                         '%s/%s' % (path, k))
+    if isinstance(a, (list, tuple)) and len(a) == len(b):
+        for i, (x, y) in enumerate(zip(a, b)):
+            if x != y:
+                return _first_difference(x, y, '%s[%d]' % (path, i))
+    return ('%s: %r vs %r' % (path, a, b))[:300]
+
+
 def generalise(diff_text):
     import re
     lines = []
@@ -286,6 +339,16 @@ def run_case(desc):
         if eq != (e1 and e2):
             items.append({'type': 'EQ_DIFF_DISAGREE', 'variant': tag,
                           'eq': eq, 'empty_ab': e1, 'empty_ba': e2})
+        # independent witness: both signatures were built by the same code
+        # from live models, so their stored form is canonical; an empty
+        # difference between two signatures whose stored forms differ means
+        # the comparison lost something
+        if e1 and e2:
+            stats['empty_pairs'] = stats.get('empty_pairs', 0) + 1
+            sa, sb = a.serialize(), b.serialize()
+            if sa != sb:
+                items.append({'type': 'DIFF_EMPTY_STORED_FORM_DIFFERS',
+                              'detail': _first_difference(sa, sb)})
     eq, e1, e2 = eq_vs_diff(nsig, nsig)
     if not (eq and e1 and e2):
         items.append({'type': 'SELF_DIFF_NONEMPTY', 'variant': 'self',
